@@ -218,6 +218,12 @@ class Tab:
         self.Z = [30.0 + 3 * i for i in range(n)]
         self.T = [1000.0 + i for i in range(n)]
 
+    def clone(self):
+        t = Tab(self.n)
+        t.cols = {k: list(v) for k, v in self.cols.items()}
+        t.X, t.Y, t.Z, t.T = list(self.X), list(self.Y), list(self.Z), list(self.T)
+        return t
+
     def read(self, name):
         """column read under a name as the documentation defines it (None = no such thing)"""
         if name in ("x", "y", "z", "t"):
@@ -382,8 +388,17 @@ def eval_ast(tab, ast):
     return ("c", [f(q, l[1]) for q in r[1]])
 
 
+LIST_VOID = ("uvoid", "bvoid", "svoid", "ufn", "sk")     # families whose list form runs one execute per position
+LIST_REFUSED = ("sum", "aggf")                              # value-returning unary operators: the list form raises TypeError
+
+
 def op_targets(op):
     k = op[0]
+    if k == "list":
+        out = set()
+        for sub in op[1]:
+            out |= op_targets(sub)
+        return out
     if k in ("create", "update", "setitem", "remove", "setobs", "addaf"):
         return {op[1]}
     if k == "uvoid":
@@ -453,6 +468,20 @@ def expected_(tab, op):
     e = {"cols": {}, "drop": set(), "coord": {}, "ret": "-", "scaled": False}
     if n == 0:
         return None                        # no observation: nothing can be written
+    if k == "list":
+        # list form of operate: for a void family one call per position, in order (documented: "arg2 = F(arg1)" for lists of
+        # names); for a value-returning operator the list form raises (TypeError): no expectation, nothing may change
+        if op[1][0][0] in LIST_REFUSED:
+            return None
+        t2 = tab.clone()
+        for sub in op[1]:
+            es = expected_(t2, sub)
+            if es is None:
+                return None
+            for nm, c in es["cols"].items():
+                t2.cols[nm] = c
+                e["cols"][nm] = c
+        return e
     if k in ("create", "setitem") and op[1] in RESERVED:
         return None
     if k in ("conv", "fft", "apply", "shiftc"):
@@ -744,7 +773,7 @@ def sim_names(case):
             names = [x for x in names if x != op[1]]
         elif k == "abscurv":
             names = [x for x in names if x != "ds"] + ([] if "abs_curv" in names else ["abs_curv"])
-        elif k in ("create", "setitem", "addaf", "uvoid", "bvoid", "svoid", "conv", "fft", "apply", "shiftc", "rev", "sk", "ufn", "seg", "estspeed"):
+        elif k in ("create", "setitem", "addaf", "uvoid", "bvoid", "svoid", "conv", "fft", "apply", "shiftc", "rev", "sk", "ufn", "seg", "estspeed", "list"):
             for t in tg:
                 if t not in names:
                     names.append(t)
@@ -797,6 +826,10 @@ class P(Prop):
         ("TracklibVerif.Props.C01World", "TV.C01.derive_span_is_copies", "the model of extractSpanTime (Sys.derive) builds its new track by copyEach over positions of the source with the source's dict (ties the driver's derivation to copies_are_fresh / span_track_independent)"),
         ("TracklibVerif.Props.C01World", "TV.C01.derive_addCopy_is_insert", "the model of addObs / insertObs of an Obs.copy() inserts the object allocCopy made with pyInsert (ties the driver's derivation to ring_track_good)"),
         ("TracklibVerif.Props.C01World", "TV.C01.derive_loopAdd_is_addCopy", "loop(add=True) is addObs(self[0].copy())"),
+        ("TracklibVerif.Props.C01Call", "TV.C01.call_refines", "every call of the API in any form - single, list form of a void operator family (operate(op, [in..], .., [out..]): one execute per position, stopped by the first exception or not), refused list form of a value-returning operator - keeps the table aligned and does exactly what it does on the name -> column specification"),
+        ("TracklibVerif.Props.C01Call", "TV.C01.heap_call_refines", "the same on a heap of Obs objects for a track of pairwise distinct objects; objects outside the track untouched"),
+        ("TracklibVerif.Props.C01Call", "TV.C01.call_frame", "no side effects for a call in any form, returning or raising: a name none of its positions designates reads as before and stays listed / unlisted"),
+        ("TracklibVerif.Props.C01Call", "TV.C01.list_form_is_history", "the list form is the history of its single calls cut after the first one that raises: same state, returns nothing when all return, else raises what that call raises"),
         ("TracklibVerif.Props.C01World", "TV.C01.derive_copy_is_copies", "Track.copy() (deepcopy with its memo) of a track of pairwise distinct objects makes one new object per position, like the copies above"),
     ]
     partial = []
@@ -810,8 +843,9 @@ class P(Prop):
         "assignment to 't' (timestamps replaced by floats), 'timestamp' as an operand, the FILTER operator '!' between two features, D2 and the order-statistic "
         "functions in expressions, a complex result of ** , and tables that are already misaligned are outside the model (the driver answers "
         "'unsupported' and the rest of that history is not compared)",
-        "the list forms of operate (lists of input / output names) are not modelled: for the non-void and scalar families they raise TypeError "
-        "(`range(output)` on a list) before touching the table",
+        "list forms of operate: modelled for the void families (one execute per position) and for the value-returning unary operators (TypeError from "
+        "`range(output)` on a list, before anything is touched); NOT modelled: lists of different lengths (the `raise OperatorError` is in fact a NameError: "
+        "the name is not imported in track.py - nothing is touched either way), the list form of the scalar non-void family (AGGREGATE), lists mixing None outputs",
         "tracks that SHARE Obs objects (extract / slice / + hand over the objects themselves; one object referenced at two positions of a track): the heap "
         "model (Model/FeaturesWorld.lean) runs them and the correspondence compares every track of the session, but the theorems need pairwise distinct "
         "objects within the track and, for 'the other track is unchanged', disjoint tracks - for shared objects alignment does fail (finding "
@@ -823,7 +857,8 @@ class P(Prop):
                 "getObsAnalyticalFeature / setObsAnalyticalFeature / hasAnalyticalFeature / addAnalyticalFeature / __setitem__ / "
                 "setX|Y|ZFromAnalyticalFeature / operate (operator objects and str, with the purge incl. af[0] on the empty name) / "
                 "__applyOperation (= + - * / ^ % < > & $ @ ; '!' only its KeyError forms) / __evaluateRPN / "
-                "__evaluate (on the RPN token list) of core/track.py; utils.addListToAF; Integrator, Differentiator, Adder, "
+                "__evaluate (on the RPN token list) of core/track.py; the list forms of operate for the void operator families and for the value-returning "
+                "unary operators (Model/FeaturesCall.lean); utils.addListToAF; Integrator, Differentiator, Adder, "
                 "Substracter, Multiplier, Divider, Power, Modulo, Above, Below, ScalarAdder, ScalarSubstracter, ScalarRevSubstracter, ScalarMuliplier, "
                 "ScalarPower, ScalarRevPower, ScalarModulo, ScalarRevModulo, ScalarAbove, ScalarBelow, ScalarRevAbove, ScalarRevBelow, ScalarDivider, "
                 "ScalarRevDivider, Inverser, ShiftCircular, ShiftCircularRev, Apply and Rectifier / Sqrt / Diode / Sign / Exp / Cos / Sin / Tan, Log, "
@@ -852,6 +887,7 @@ class P(Prop):
             "raises mid-way, value-returning aggregates, computeAbsCurv, estimate_speed, segmentation) and expressions with / ^ % < > >> << and function calls; 'carry': a track built "
             "by copy / extract / slice / + / extractSpanTime (bounds in either order or given as a track) / loop(add=True) / addObs or insertObs of an Obs.copy() (t[i], getObs, getFirstObs, getLastObs) "
             "from a track with 0..5 earlier calls, then a history on it, then (copy, extractSpanTime) a history on the source again, all tracks observed before and after and the whole session replayed on the heap model; 'short': a list initialiser shorter than the track in the middle of a history (refused / partial overwrite), also sprinkled in every stream; "
+            "list forms of operate (1-3 positions, with / without output names, every void family; SUM / aggregates refused) sprinkled in every random stream; "
             "empty track. A call that raises although all its operands exist and it is well formed is a failure; "
             "non-trivial = the history deletes (remove, '#DELETE' or re-assignment by an expression) a column that is not the last one while other features are listed")
 
@@ -1023,7 +1059,37 @@ class P(Prop):
     SKINDS = ["add", "sub", "rsub", "mul"]
     SKINDS_RICH = ["add", "sub", "rsub", "mul", "pow", "rpow", "mod", "rmod", "above", "below", "rabove", "rbelow"]
 
+    def rand_list_op(self, rng, n):
+        """a list form of operate: lists of input / output names, one operator"""
+        m = rng.choice([1, 2, 2, 3])
+        fam = rng.choice(["uvoid", "bvoid", "svoid", "ufn", "sk", "sum", "aggf"] if self.rich else ["uvoid", "bvoid", "svoid", "sum"])
+        with_out = rng.random() < 0.6
+        out = (lambda: self.rand_name(rng, True)) if with_out else (lambda: None)
+        if fam == "uvoid":
+            kind = rng.choice(["int", "dif"])
+            subs = [["uvoid", kind, self.rand_in(rng), out()] for _ in range(m)]
+        elif fam == "bvoid":
+            kind = rng.choice(self.BKINDS_RICH if self.rich else self.BKINDS)
+            subs = [["bvoid", kind, self.rand_in(rng), self.rand_in(rng), out()] for _ in range(m)]
+        elif fam == "svoid":
+            kind, v = rng.choice(self.SKINDS_RICH if self.rich else self.SKINDS), self.rand_val(rng)
+            subs = [["svoid", kind, self.rand_in(rng), v, out()] for _ in range(m)]
+        elif fam == "ufn":
+            f = rng.choice(VOID_FN)
+            subs = [["ufn", f, self.rand_in(rng), out()] for _ in range(m)]
+        elif fam == "sk":
+            kind, v = rng.choice(["div", "rdiv", "shift", "shiftr"]), self.rand_val(rng)
+            subs = [["sk", kind, self.rand_in(rng), v, out()] for _ in range(m)]
+        elif fam == "sum":
+            subs = [["sum", self.rand_in(rng)] for _ in range(m)]
+        else:
+            f = rng.choice(AGG_FN)
+            subs = [["aggf", f, self.rand_in(rng)] for _ in range(m)]
+        return ["list", subs]
+
     def rand_op(self, rng, n):
+        if rng.random() < 0.035:
+            return self.rand_list_op(rng, n)
         r = rng.random()
         if self.rich and r < 0.30:
             # the wider alphabet: operator objects of every family, helpers that create features
@@ -1182,11 +1248,8 @@ class P(Prop):
             return sel
         raise ValueError(c)
 
-    def gen_carry(self, rng):
-        n = rng.choice([2, 3, 3, 4, 5])
-        pool = ["a", "b", "c"] if rng.random() < 0.7 else self.rand_pool(rng)
-        rich = rng.random() < 0.3          # one alphabet for the whole case: numpy-valued operators and raising arithmetic stay apart
-        pre = self.gen_history(rng, n, rng.choice([0, 1, 2, 3, 5]), pool, rich)
+    def rand_carry(self, rng, n, pre, pool, rich):
+        """one way of making a track from a track of n observations that went through the calls `pre`"""
         r = rng.random()
         if r < 0.18:
             carry = ["copy"]
@@ -1213,11 +1276,21 @@ class P(Prop):
             def resize(op):
                 if op[0] in ("create", "update", "setitem") and op[2] == "l":
                     return op[:3] + [(list(op[3]) * (m + 1) + [1] * (m + 1))[:m + max(0, len(op[3]) - n)]]
+                if op[0] == "fft" and op[2] > m:
+                    return ["fft", op[1], 1, op[3]]          # a kernel no longer than the second operand
                 return op
             if rng.random() < 0.85:
                 carry = ["plus", m, [resize(op) for op in pre], "same"]
             else:
                 carry = ["plus", m, self.gen_history(rng, m, rng.choice([0, 1, 2]), pool, rich), "other"]
+        return carry
+
+    def gen_carry(self, rng):
+        n = rng.choice([2, 3, 3, 4, 5])
+        pool = ["a", "b", "c"] if rng.random() < 0.7 else self.rand_pool(rng)
+        rich = rng.random() < 0.3          # one alphabet for the whole case: numpy-valued operators and raising arithmetic stay apart
+        pre = self.gen_history(rng, n, rng.choice([0, 1, 2, 3, 5]), pool, rich)
+        carry = self.rand_carry(rng, n, pre, pool, rich)
         dn = len(self.carry_selection(carry, n)) + (carry[1] if carry[0] == "plus" else 0)
         ops = self.gen_history(rng, dn, rng.choice([1, 2, 4, 8]), pool, rich)
         case = {"kind": "carry", "n": n, "pool": pool, "pre": pre, "carry": carry, "ops": ops}
@@ -1353,6 +1426,22 @@ class P(Prop):
             if op[2] == "g":
                 return t[op[1]]
             return t.operate(op[1])
+        if k == "list":
+            subs = op[1]
+            f = subs[0][0]
+            if f == "sum":
+                return t.operate(self.Operator.SUM, [x[1] for x in subs])
+            if f == "aggf":
+                return t.operate(self.AGGOPS[subs[0][1]], [x[2] for x in subs])
+            oper = {"uvoid": self.UOPS, "bvoid": self.BOPS, "svoid": self.SOPS, "ufn": self.FNOPS, "sk": self.SKOPS}[f][subs[0][1]]
+            ins = [x[2] for x in subs]
+            outs = [x[-1] for x in subs]
+            tail = [] if outs[0] is None else [outs]
+            if f in ("uvoid", "ufn"):
+                return t.operate(oper, ins, *tail)
+            if f == "bvoid":
+                return t.operate(oper, ins, [x[3] for x in subs], *tail)
+            return t.operate(oper, ins, fv(subs[0][3]), *tail)
         raise ValueError(k)
 
     @staticmethod
@@ -1554,6 +1643,10 @@ class P(Prop):
     # ---------------------------------------------------------------- model
     def op_token(self, op, vals=None):
         k = op[0]
+        if k == "list":
+            if op[1][0][0] in LIST_REFUSED:
+                return "refused"
+            return "seq;" + ";".join(self.op_token(sub) for sub in op[1])
         o = lambda x: enc(x) if x is not None else ""
         if k in self.OPAQUE:
             out = list(op_targets(op))[0]
@@ -1777,7 +1870,11 @@ class P(Prop):
 
     def diff_step(self, op, si, sm, with_rows=True):
         if si["out"] != sm["out"]:
-            return "outcome impl=%s model=%s" % (si["out"], sm["out"])
+            # an operator with opaque values that raises inside its numeric part (FILTER_FFT with a kernel longer than the track:
+            # ValueError from numpy): the model, which is handed no values, raises IndexError at the write - the kind is not
+            # compared, the table left behind is
+            if not (op[0] in self.OPAQUE and si["out"].startswith("err") and sm["out"].startswith("err")):
+                return "outcome impl=%s model=%s" % (si["out"], sm["out"])
         if si["out"] == "ok" and not self.same_ret(op, si["ret"], sm["ret"]):
             return "returned value impl=%s model=%s" % (si["ret"], sm["ret"])
         if sorted(si["names"]) != sorted(sm["names"]):
@@ -2121,3 +2218,12 @@ class P(Prop):
             k = rng.randrange(len(ops))
             yield dict(case, kind=kind, ops=ops[:k] + self.gen_history(rng, n, 1, pool, rich) + ops[k:])
             yield dict(case, kind=kind, ops=ops + self.gen_history(rng, n, 3, pool, rich))
+        if kind == "carry" and n >= 1:
+            # the same calls on a track made in another way, and the source used again afterwards
+            for _ in range(10):
+                c2 = self.rand_carry(rng, n, case["pre"], pool or ["a", "b", "c"], False)
+                m = {k_: v for k_, v in case.items() if k_ != "post"}
+                m["carry"] = c2
+                if c2[0] in self.INDEPENDENT:
+                    m["post"] = self.gen_history(rng, n, rng.choice([1, 2, 4]), pool, False)
+                yield m
